@@ -447,8 +447,36 @@ func (w *c07World) apply(op c07Op) bool {
 			}
 		}
 		w.log(op.String())
+		type agedConn struct {
+			c    *c07Conn
+			auth bool
+		}
+		var agedBefore []agedConn
+		if !w.conc {
+			for _, k := range sm.clientRegistry.List() {
+				if cc := w.ownerOf(k); cc != nil && cc.aged.Load() && !cc.shared.Load() {
+					agedBefore = append(agedBefore, agedConn{cc, k.Authenticated})
+				}
+			}
+		}
 		n := sm.cleanupStaleConnections()
 		w.run.Count("sweep_removed", int64(n))
+		// heartbeat timeout: here the server itself closes the connection (the sweep's callback is
+		// CloseConnection), no read loop has to end first — so a swept connection, authenticated
+		// or not, must be gone from the session's connection map as well right after the sweep
+		for _, a := range agedBefore {
+			if w.regEntry(a.c) != nil {
+				continue
+			}
+			kind := "unauthenticated"
+			if a.auth {
+				kind = "authenticated"
+			}
+			w.run.Count("swept_"+kind, 1)
+			if _, ok := sm.GetConnection(a.c.connID); ok {
+				w.run.Violation("C07:swept-conn-still-in-session-connmap|conn="+kind, map[string]any{"conn": a.c.connID, "trace": w.tail(), "stats": sm.GetConnectionStats()})
+			}
+		}
 		for _, cc := range revived {
 			// aged, then heartbeat, then sweep: counted, not judged (the statement does not say who survives)
 			if sm.GetControlConnection(cc.connID) != nil {
@@ -964,6 +992,8 @@ func TestVerifC07RegistryExhaustive(t *testing.T) {
 	run.Floor("tunnel_conversions", 10)
 	run.Floor("cloud_faults_on_disconnect", 50)
 	run.Floor("reuse_registered", 10)
+	run.Floor("swept_unauthenticated", 5)
+	run.Floor("swept_authenticated", 5)
 }
 
 // ---------------------------------------------------------------------------
